@@ -338,30 +338,8 @@ def captureM {α} (m : M α) : M (α × Bytes) := fun s =>
 
 /-- what the renderer needs from the value layer besides `Prims` -/
 structure OutPrims where
-  /-- `fmt.Sprint(v)` -/
-  sprint : GoVal → Res Cause Bytes
-
-mutual
-/-- the sequence of `w.Write` calls `writeObject(w, value)` makes -/
-def writeChunks (O : OutPrims) : GoVal → Res Cause (List Bytes)
-  | .drop v => writeChunksNoDrop O v              -- `values.ToLiquid` is applied once
-  | v => writeChunksNoDrop O v
-def writeChunksNoDrop (O : OutPrims) : GoVal → Res Cause (List Bytes)
-  | .nil => .ok []
-  | .time _ => .unmodelled "time formatting"
-  | .bytes s => .ok [s]
-  | .slice _ xs => writeChunksList O xs
-  | .array _ xs => writeChunksList O xs
-  | .ptr v => do let s ← O.sprint v; .ok [s]
-  | .nilPtr => .ok [[60, 105, 110, 118, 97, 108, 105, 100, 32, 114, 101, 102, 108, 101, 99, 116, 46, 86, 97, 108, 117, 101, 62]]
-  | v => do let s ← O.sprint v; .ok [s]
-def writeChunksList (O : OutPrims) : List GoVal → Res Cause (List Bytes)
-  | [] => .ok []
-  | x :: xs => do
-    let a ← writeChunks O x
-    let b ← writeChunksList O xs
-    .ok (a ++ b)
-end
+  /-- the sequence of `w.Write` calls that `writeObject(w, value)` makes (`Liquid/Std.lean`) -/
+  chunks : GoVal → Res Cause (List Bytes)
 
 def writeAllM : List Bytes → M Unit
   | [] => pure ()
@@ -565,7 +543,7 @@ def renderNode (c : RCtx) : Node → M Status
       let env ← M.getEnv
       let v ← M.ofRes (evaluate c.P env e)
       if v.isNil && c.cfg.strict then M.fail (.plain (.other "undefined variable")) else do
-      let chunks ← M.ofRes (writeChunks c.O v)
+      let chunks ← M.ofRes (c.O.chunks v)
       writeAllM chunks
       pure .done)
   | .raw slices => wrapFailAt c.cfg.path invalidLoc (do writeAllM slices; pure .done)
